@@ -46,6 +46,7 @@ class MNode:
 
 class Prop(BaseProp):
     ID = "C20"
+    ANCHORS = ['cminx.rstwriter:get_indents', 'cminx.rstwriter:Directive.to_text', 'cminx.rstwriter:RSTWriter.to_text', 'cminx.rstwriter:Heading.build_heading_string', 'cminx.rstwriter:Directive.option', 'cminx.rstwriter:RSTWriter.clear']
     LEVEL = "exploration"
     RULE = ("random programs over the public writer API (text incl. multi-line with own leading spaces, field, "
             "bulleted/enumerated lists, directives nested to depth 8 with arguments, options, title changes, clear(), "
